@@ -1,7 +1,7 @@
 (* C05 -- property theorems only.  Proofs live in C05/Proofs*.v. *)
 From Coq Require Import NArith List Bool.
 From DV Require Import Base.Outcome Base.Bytes Base.Names Base.PName
-  C05.Schema C05.Gen C05.Model C05.OptModel C05.ProofsA C05.ProofsB C05.ProofsC C05.ProofsD C05.ProofsE C05.Proofs.
+  C05.Schema C05.Gen C05.Model C05.OptModel C05.ProofsA C05.ProofsB C05.ProofsC C05.ProofsD C05.ProofsE C05.ProofsF C05.Proofs.
 Import ListNotations.
 Local Open Scope N_scope.
 
@@ -76,8 +76,10 @@ Print Assumptions C05_unknown_opaque.
 (* the rows regenerated from the Rust source are the rows the theorems are about *)
 Theorem C05_schema_src_agrees :
   Gen.schema_src = schema_table_regular /\ Gen.unknown_src = unknown_schema /\
-  Gen.rdlen_none_src = map fst (filter (fun r => has_compressible (snd r)) schema_table_regular).
-Proof. exact (conj schema_src_agrees (conj unknown_src_agrees rdlen_none_agrees)). Qed.
+  Gen.rdlen_none_src = map fst (filter (fun r => has_compressible (snd r)) schema_table_regular) /\
+  Gen.rdlen_shape_src = map (fun r => (fst r, rdlen_shape (snd r))) schema_table_regular /\
+  Gen.rdlen_shape_unknown_src = rdlen_shape unknown_schema.
+Proof. exact (conj schema_src_agrees (conj unknown_src_agrees (conj rdlen_none_agrees rdlen_shape_agrees))). Qed.
 Print Assumptions C05_schema_src_agrees.
 
 (* constructors: everything they accept round-trips with an exact length,
@@ -149,3 +151,21 @@ Theorem C05_opt_push_long_refuted :
   exists o r, opt_push [] o = Some r /\ 65535 < len r.
 Proof. exact opt_push_long_refuted. Qed.
 Print Assumptions C05_opt_push_long_refuted.
+
+(* every type bitmap the builder produces (C13 model of RtypeBitmapBuilder) is
+   accepted as the types field of the NSEC / NSEC3 rows *)
+Theorem C05_built_bitmap_accepted : forall ts, Forall (fun x => x < 65536) ts ->
+  rest_check KBitmap (C13.Model.bm_finalize (C13.Model.bm_adds [] ts)) = None.
+Proof. exact built_bitmap_accepted. Qed.
+Print Assumptions C05_built_bitmap_accepted.
+
+(* EDNS option contents, every option code: compose then parse gives the value
+   back, the announced option length is the number of octets written *)
+Theorem C05_option_parse_compose : forall code v pre post,
+  wf_value (option_schema code) v = true ->
+  parse_rdata flat_dec (option_schema code)
+    (pre ++ compose (option_schema code) v ++ post) (len pre)
+    (len pre + len (compose (option_schema code) v)) = Ok v /\
+  rdlen (option_schema code) false v = Ok (Some (len (compose (option_schema code) v))).
+Proof. exact option_parse_compose. Qed.
+Print Assumptions C05_option_parse_compose.
